@@ -154,3 +154,37 @@ func TestFindingsJSON(t *testing.T) {
 		fmt.Printf("  %s,\n", b)
 	}
 }
+
+// TestIsolate (development aid, C14_CASE=<replay file> C14_OUT=<file>) writes a case that holds only the first program
+// of a saved failing case that fails on its own (regression files stay small and name one program).
+func TestIsolate(t *testing.T) {
+	f, out := os.Getenv("C14_CASE"), os.Getenv("C14_OUT")
+	if f == "" || out == "" {
+		t.Skip("C14_CASE / C14_OUT not set")
+	}
+	b, _ := os.ReadFile(f)
+	var env struct {
+		Case Case `json:"case"`
+	}
+	if err := json.Unmarshal(b, &env); err != nil {
+		t.Fatal(err)
+	}
+	for i := range env.Case.Progs {
+		c := Case{Progs: []Prog{env.Case.Progs[i]}}
+		err := checkCase(c, nil)
+		for k := 0; k < 6 && err == nil && os.Getenv("C14_RETRY") != ""; k++ {
+			err = checkCase(c, nil) // (a compiler that is not deterministic fails only now and then)
+		}
+		if err == nil {
+			continue
+		}
+		raw, _ := json.Marshal(c)
+		e, _ := json.MarshalIndent(map[string]any{"property": "C14", "check": "diff", "case": json.RawMessage(raw)}, "", " ")
+		if err := os.WriteFile(out, e, 0o644); err != nil {
+			t.Fatal(err)
+		}
+		fmt.Printf("program %d fails alone: %s\n", i, firstLine(err.Error()))
+		return
+	}
+	t.Fatal("no program of the case fails alone")
+}
